@@ -167,6 +167,20 @@ Theorem cross_format_json_binary : forall v : value, json_plain v = true -> valu
 Proof. exact cross_format_json_cbor. Qed.
 Print Assumptions cross_format_json_binary.
 
+(** all three at once, and at message level *)
+Theorem cross_format :
+  forall v : value,
+    value_equiv (canon_mp v) (canon_cb v) = true
+    /\ (json_plain v = true ->
+        value_equiv (canon_js v) (canon_mp v) = true /\ value_equiv (canon_js v) (canon_cb v) = true).
+Proof. exact cross_format_all. Qed.
+Print Assumptions cross_format.
+
+Theorem cross_format_messages :
+  forall m : msg, msg_equiv (canon_msg FMsgpack m) (canon_msg FCbor m) = true.
+Proof. exact cross_format_msg_mp_cbor. Qed.
+Print Assumptions cross_format_messages.
+
 (** ** Arbitrary input: never a panic; a message only for a list with a known
     code and compatible items *)
 
